@@ -226,6 +226,7 @@ func init() {
 				return hostileRun("C05", g.Session(r.Range(2, 6)), idx%2 == 0, "typed", "")
 			}},
 		},
+		Sanitize: []string{"matrix", "random", "typed"},
 		Floors: []core.Floor{{Key: "statements_executed", Quick: 60000, Thor: 5000000}, {Key: "runtime_errors", Quick: 30000, Thor: 2000000}, {Key: "values", Quick: 10000, Thor: 1000000}, {Key: "tag:err:", Quick: 6, Thor: 7}, {Key: "tag:shape:", Quick: 150, Thor: 200}, {Key: "binary_runs", Quick: 200, Thor: 4000}},
 	})
 	core.MaxInconclusivePct["C05"] = 15
